@@ -2,7 +2,7 @@
 # usage: tools/seed3.sh <ID> [checks...]  — validate both round-3 seeds of a property
 ID=$1; shift
 for k in 1 2; do
-  SEEDSRC=/tmp/seed3 KOFFSET=4 python3 /verif/tools/seedcheck.py $ID $k "$@" 2>&1 | python3 -c "
+  SEEDSRC=${SEEDSRC:-/tmp/seed3} KOFFSET=${KOFFSET:-4} python3 /verif/tools/seedcheck.py $ID $k "$@" 2>&1 | python3 -c "
 import json,sys
 try:
     r=json.load(sys.stdin)
